@@ -535,6 +535,7 @@ def main():
         rp = write_replay(pid, kind, dict(property=pid, seed=v.get('seed', seed), tier=tier, what=kind + ' failure on the implementation',
                                           violation=v, replay_cmd='tools/check.py %s --replay <this file>' % pid))
         out_lines.append('VIOLATION property=%s replay=%s' % (pid, rp))
+        out_lines.append('  (%s tag=%s: %s)' % (v.get('kind', kind), v.get('tag'), ' '.join(str(v.get('case', ''))[:400].split())))
     if broken and nviol == 0 and not seen_known:
         rp = write_replay(pid, 'unproved', dict(property=pid, seed=seed, tier=tier, what='property no longer shown to hold',
                                                 broken=broken, searched_cases=searched))
